@@ -301,7 +301,10 @@ def _run_sampling(item, ctx, seed):
                 continue
             case = {"pos": pos_in, "neg": neg_in, "cfg": list(cfg), "method": method, "stratified": strat,
                     "group_names": names}
-            cfgobj = BootstrapConfig(sampling_method=method, stratified_sampling=strat)
+            # option strings as literal / equal string built at run time / NumPy string, rotating over the modes
+            kind_i = (len(method) + len(strat or "")) % 3
+            cfgobj = BootstrapConfig(sampling_method=ot.string_kinds(method)[kind_i][1],
+                                     stratified_sampling=None if strat is None else ot.string_kinds(strat)[(kind_i + 1) % 3][1])
             ctx.state()
             mass, leaves, exact = 0.0, 0, True
 
